@@ -116,7 +116,8 @@ AddText(wb, s, m, main, cont) ==
            [wb |-> wb, tag |-> IF wb.prew THEN cont ELSE main], s).wb
 
 \* WrappedBlock::flush / into_lines
-Finish(wb) == FlushLine(FlushWord(wb, "Normal"))
+\* WrappedBlock::flush: white space still pending at the end of the block is discarded, and its tag with it
+Finish(wb) == FlushLine([FlushWord(wb, "Normal") EXCEPT !.wslen = 0, !.hasst = FALSE])
 WBEmpty(wb) == Len(wb.text) + SumW(wb.line) + wb.wordlen = 0      \* WrappedBlock::is_empty
 
 (* ---- declarative reference for normal flow (C04): greedy filling of words ---- *)
